@@ -224,6 +224,42 @@ func (g *gen) any(s spec) {
 
 func (g *gen) patterns() []func() {
 	return []func(){
+		// texts that differ only by white space INSIDE a string literal, or by the line break that
+		// ends a comment: same after white-space normalisation, different documents
+		func() {
+			pairs := [][2]string{
+				{`{ e: echo(s: "a  b") }`, `{ e: echo(s: "a b") }`},
+				{`{ e: echo(s: "x\ty") q1 }`, `{ e: echo(s: "x y") q1 }`},
+				{"{ q1 # note\n q2 }", "{ q1 # note q2 }"},
+				{"query A { q1 # c\n } query B { q2 }", "query A { q1 # c } query B { q2 }"},
+			}
+			pr := pairs[g.r.Intn(len(pairs))]
+			if g.chance(0.5) {
+				pr[0], pr[1] = pr[1], pr[0]
+			}
+			g.post(spec{Query: str(pr[0]), note: "ws-sensitive-first"})
+			g.any(spec{Query: str(pr[1]), note: "ws-sensitive-second"})
+			g.post(spec{Query: str(pr[0]), note: "ws-sensitive-first-again"})
+		},
+		// a body that fails to decode AFTER its query member was read, then requests that omit
+		// members (pooled request objects must not keep anything of the refused body)
+		func() {
+			t := g.pick(simpleDocs) + " # apq-te " + g.tag
+			g.post(spec{Query: str(t), Ext: pq(sha(t), 1), note: "apq-register"})
+			g.regs = append(g.regs, t)
+			leak := "query Leak { q3 q2 } # " + g.tag
+			g.postRaw(fmt.Sprintf(`{"query":%q,"operationName":"Leak","variables":"oops"}`, leak), "type-error-after-query")
+			switch g.r.Intn(3) {
+			case 0:
+				g.post(spec{Ext: pq(sha(t), 1), note: "apq-hash-only-after-type-error"})
+			case 1:
+				g.post(spec{Ext: pq(sha(leak), 1), note: "apq-unregistered-hash-of-refused-text"})
+			default:
+				g.post(spec{Vars: map[string]any{"s": "q"}, note: "only-variables-after-type-error"})
+			}
+			g.postRaw(fmt.Sprintf(`{"query":%q,"extensions":7}`, leak), "type-error-in-extensions")
+			g.post(spec{note: "empty-object-after-type-error"})
+		},
 		// operationName present, then absent / other, on one text
 		func() {
 			names := []string{"A", "B", "M", "B"}
